@@ -1168,6 +1168,74 @@ def eval_E1(ctx, exe, mexe, cases, st):
                           "counterpart modulo column signs (simple, positive leading spectrum): %s" % po)
 
 
+def gen_EI(rng):
+    """Landmark Isomap through the method class with ratio < 1 (distinct integer weights: no ties)"""
+    c = gen_I(rng)
+    n = c["N"]
+    d = c["d"]
+    lo = max(3.0 / n, (d + 1) / n)
+    return {"mode": "EI", "method": "lisomap", "N": n, "d": d, "k": c["k"], "dist": c["dist"],
+            "ratio": rng.uniform(lo, 1.0), "seed": rng.randrange(1 << 30)}
+
+
+def eval_EI(ctx, exe, mexe, cases, st):
+    """LandmarkIsomapImplementation::embed() against the routine-level pipeline of mode I (which is tied to the
+    model and to the exact geodesic reference) on the landmarks the hook reports"""
+    if not cases:
+        return
+    lines = [impl_line(api("lisomap", c["N"], c["d"], c["ratio"], c["seed"], c["k"],
+                           [[float(v) for v in row] for row in c["dist"]])) for c in cases]
+    impl = run_impl(ctx, exe, lines)
+    i_lines, idx = [], []
+    for c, res in zip(cases, impl):
+        st.evals += 1
+        st.count("EI_lisomap")
+        n, d = c["N"], c["d"]
+        rc = jsonable(c)
+        count = int(n * c["ratio"])
+        if res["crashed"]:
+            ctx.violation(rc, "Landmark Isomap (method class): " + crash_why(res))
+            continue
+        perm, Y, problem = parse_api(res, n, d)
+        if perm is None:
+            if not problem:
+                ctx.mismatch(rc, "hook H1 did not report the permutation")
+            else:
+                st.skip("EI_" + problem.split()[0])
+            continue
+        if sorted(perm) != list(range(n)):
+            ctx.violation(rc, "oracle contract: tapkee::random_shuffle did not produce a permutation")
+            continue
+        lm = perm[:count]
+        if any(v is None for row in ref_geodesics(c["dist"], c["k"], lm) for v in row):
+            st.skip("EI_disconnected_graph")
+            continue
+        if Y is None:
+            st.skip("EI_no_embedding")
+            continue
+        i_lines.append("I %d %d %d %d %s %s" % (n, count, d, c["k"], " ".join(map(str, lm)),
+                                                " ".join(hx(v) for v in flat(c["dist"]))))
+        idx.append((rc, lm, Y))
+    for (rc, lm, Y), res in zip(idx, run_impl(ctx, exe, i_lines) if i_lines else []):
+        st.evals += 1
+        try:
+            Z = parse_hex_floats(res["rows"]["EMB"])
+            lam = parse_hex_floats(res["rows"]["LAM"])
+        except (KeyError, ValueError):
+            continue
+        if not finite(Z) or not finite(lam) or min(lam) <= 1e-9 * max(lam):
+            st.skip("EI_ill_conditioned")
+            continue
+        scale = max(1.0, max(abs(v) for v in Z))
+        worst = max(abs(a - b) for a, b in zip(flat(Y), Z))
+        if worst > 1e-7 * scale * max(1.0, (max(lam) / min(lam)) ** 0.5):
+            ctx.mismatch(dict(rc, landmarks=lm), "LandmarkIsomapImplementation::embed() and the same pipeline through "
+                         "the internal routines (harness mode I, tied to the model) differ by %g on the same landmarks"
+                         % worst)
+        else:
+            st.nontrivial(["EI", rc["dist"], lm, rc["d"]])
+
+
 def f21_case():
     pts = [[i * i % 7, i, (3 * i) % 5, i % 2, (i * i * i) % 11, i % 3] for i in range(10)]
     return {"mode": "V", "method": "lmds", "N": 10, "d": 5, "ratio": 0.3, "seed": 7, "pts": pts}
@@ -1240,7 +1308,7 @@ def budgets(ctx, scale=1):
     return {"S": (60 if q else 400) * scale, "R": (100 if q else 1500) * scale, "T": (48 if q else 500) * scale,
             "I": (16 if q else 200) * scale, "E": (12 if q else 120) * scale,
             "E1_lmds": (10 if q else 80) * scale, "E1_lisomap": (8 if q else 60) * scale,
-            "V": (30 if q else 300) * scale, "E2": (8 if q else 80) * scale}
+            "V": (30 if q else 300) * scale, "E2": (8 if q else 80) * scale, "EI": (12 if q else 120) * scale}
 
 
 def generate(ctx, rng, b):
@@ -1250,7 +1318,8 @@ def generate(ctx, rng, b):
              "E1": [gen_ratio_one(rng, "lmds") for _ in range(b["E1_lmds"])] +
                    [gen_ratio_one(rng, "lisomap") for _ in range(b["E1_lisomap"])],
              "V": [f21_case()] + [gen_V(rng) for _ in range(b["V"])],
-             "E2": [gen_E2(rng) for _ in range(b["E2"])]}
+             "E2": [gen_E2(rng) for _ in range(b["E2"])],
+             "EI": [gen_EI(rng) for _ in range(b["EI"])]}
     # boundary cases aimed at the case splits of the proofs
     cases["S"] += [{"mode": "S", "N": 47, "ratio": 3.0 / 47, "reps": 2, "seed": 1},
                    {"mode": "S", "N": 3, "ratio": 1.0, "reps": 2, "seed": 2},
@@ -1266,7 +1335,7 @@ def generate(ctx, rng, b):
 
 def evaluate_all(ctx, exe, mexe, cases, st):
     for key, fn in (("S", eval_S), ("R", eval_R), ("T", eval_T), ("I", eval_I), ("E", eval_E), ("E1", eval_E1),
-                    ("V", eval_V), ("E2", eval_E2)):
+                    ("V", eval_V), ("E2", eval_E2), ("EI", eval_EI)):
         t0 = ctx.elapsed()
         fn(ctx, exe, mexe, cases.get(key, []), st)
         st.times[key] = round(st.times.get(key, 0) + ctx.elapsed() - t0, 1)
@@ -1276,7 +1345,7 @@ def corpus_cases(ctx):
     out = {}
     for name, c in ctx.corpus():
         c = revive(c.get("case", c))
-        key = c.get("mode") if c.get("mode") in ("S", "R", "T", "I", "E", "E1", "V", "E2") else None
+        key = c.get("mode") if c.get("mode") in ("S", "R", "T", "I", "E", "E1", "V", "E2", "EI") else None
         if key:
             out.setdefault(key, []).append(c)
     return out
@@ -1326,7 +1395,7 @@ def run(ctx):
         # own output first, so a genuine violation turns into a replayable input
         evaluate_all(ctx, exe, mexe, generate(ctx, rng, budgets(ctx, 4)), st)
     samples = []
-    for key in ("S", "R", "T", "I", "E", "E1", "V", "E2"):
+    for key in ("S", "R", "T", "I", "E", "E1", "V", "E2", "EI"):
         for c in cases.get(key, [])[:1]:
             s = jsonable(c)
             if "dist" in s:
@@ -1338,7 +1407,8 @@ def run(ctx):
              "+- 1 ulp, 1), R (triangulate alone, exact dyadic operands), T (Landmark-MDS embed body through the "
              "internal routines; integer metrics line / L1 lattice / asymmetric table; L a power of two), I (Landmark "
              "Isomap dense body, distinct integer weights), E (public API, Euclidean integer configurations of "
-             "intrinsic dimension d = target_dimension in R^D, 3 seeds each), E1 (ratio = 1 against MDS / Isomap); "
+             "intrinsic dimension d = target_dimension in R^D, 3 seeds each), E1 (ratio = 1 against MDS / Isomap), E2 (intrinsic dimension below target_dimension), EI (Landmark Isomap method "
+             "class vs routine-level pipeline), V (validation decisions vs the PrimFloat model); "
              "non-trivial = at least one non-landmark row (S: 3 <= count < N; E: spanning landmark subset, "
              "well-conditioned; E1: spectrum guard passed); distinct by hash of the case.  Counts are fixed by the "
              "tier, not by time.",
@@ -1359,7 +1429,7 @@ def replay(ctx, case):
     st = Stats()
     c = revive(case)
     mode = c.get("mode")
-    key = mode if mode in ("S", "R", "T", "I", "E", "E1", "V", "E2") else None
+    key = mode if mode in ("S", "R", "T", "I", "E", "E1", "V", "E2", "EI") else None
     if key is None:
         print("replay: unknown case mode %r" % mode)
         return 3
